@@ -92,6 +92,33 @@ type gatedSet struct {
 	gate *sched.Gate
 }
 
+// gatedAdds is the added-elements set of a mutation: every iteration over it parks after the first element was handed out.
+type gatedAdds struct {
+	ds.Set[int]
+	gate *sched.Gate
+}
+
+func (g *gatedAdds) pause(n *int) {
+	*n++
+	if *n == 1 {
+		g.gate.Wait("arg-range")
+	}
+}
+
+func (g *gatedAdds) Range(cb func(int)) {
+	n := 0
+	g.Set.Range(func(x int) { cb(x); g.pause(&n) })
+}
+
+func (g *gatedAdds) ForEach(cb func(int) error) error {
+	n := 0
+	return g.Set.ForEach(func(x int) error {
+		err := cb(x)
+		g.pause(&n)
+		return err
+	})
+}
+
 // gatedView is an argument set whose ToSlice parks at a gate (a view of the receiver handed to Replace).
 type gatedView struct {
 	ds.ReadableSet[int]
@@ -239,6 +266,53 @@ func setConc(args []string) int {
 			case "Apply":
 				lg.add(core.Ev{"ev": "inv", "t": 2, "op": "Apply", "a": core.Ev{"add": core.Seq([]int{3}), "del": core.Seq([]int{2})}})
 				m := s.Apply(ds.NewSetMutations[int]().WithAddedElements(mkSet(3)).WithDeletedElements(mkSet(2)))
+				lg.add(core.Ev{"ev": "ret", "t": 2, "res": core.Ev{"added": sortedInts(m.AddedElements()), "deleted": sortedInts(m.DeletedElements())}})
+			}
+		}()
+		sched.Quiesce(2 * time.Second)
+		gate.ReleaseAll()
+		hung := waitAll(chs, 3*time.Second)
+		hangs += len(hung)
+		emit(enc, lg, s, hung, true)
+	}
+
+	// forced schedule: an add-only Apply is held between two of its insertions (its set of added elements parks after handing out
+	// the first element); another Apply / Add / Delete arrives (it has to wait: Apply is atomic with respect to every mutator);
+	// the first Apply goes on. What each call reports as changed must fit one order of the calls.
+	for _, second := range []string{"Apply", "Add", "Delete", "Toggle"} {
+		lg := &hlog{}
+		s := ds.NewSet[int]()
+		gate := sched.NewGate()
+		gate.Hold("arg-range")
+		chs := []chan struct{}{make(chan struct{}), make(chan struct{})}
+		go func() {
+			defer close(chs[0])
+			lg.add(core.Ev{"ev": "inv", "t": 1, "op": "Apply", "a": core.Ev{"add": core.Seq([]int{1, 2}), "del": core.Seq([]int{})}})
+			m := s.Apply(ds.NewSetMutations[int]().WithAddedElements(&gatedAdds{Set: mkSet(1, 2), gate: gate}))
+			lg.add(core.Ev{"ev": "ret", "t": 1, "res": core.Ev{"added": sortedInts(m.AddedElements()), "deleted": sortedInts(m.DeletedElements())}})
+		}()
+		sched.Quiesce(2 * time.Second)
+		go func() {
+			defer close(chs[1])
+			switch second {
+			case "Apply":
+				lg.add(core.Ev{"ev": "inv", "t": 2, "op": "Apply", "a": core.Ev{"add": core.Seq([]int{1, 2}), "del": core.Seq([]int{})}})
+				m := s.Apply(ds.NewSetMutations[int]().WithAddedElements(mkSet(1, 2)))
+				lg.add(core.Ev{"ev": "ret", "t": 2, "res": core.Ev{"added": sortedInts(m.AddedElements()), "deleted": sortedInts(m.DeletedElements())}})
+			case "Add":
+				lg.add(core.Ev{"ev": "inv", "t": 2, "op": "Add", "a": 2})
+				lg.add(core.Ev{"ev": "ret", "t": 2, "res": s.Add(2)})
+			case "Delete":
+				lg.add(core.Ev{"ev": "inv", "t": 2, "op": "Delete", "a": 1})
+				lg.add(core.Ev{"ev": "ret", "t": 2, "res": s.Delete(1)})
+			case "Toggle":
+				lg.add(core.Ev{"ev": "inv", "t": 2, "op": "Toggle", "a": 2})
+				m := s.Compute(func(cur ds.ReadableSet[int]) ds.SetMutations[int] {
+					if cur.Has(2) {
+						return ds.NewSetMutations[int]().WithDeletedElements(mkSet(2))
+					}
+					return ds.NewSetMutations[int]().WithAddedElements(mkSet(2))
+				})
 				lg.add(core.Ev{"ev": "ret", "t": 2, "res": core.Ev{"added": sortedInts(m.AddedElements()), "deleted": sortedInts(m.DeletedElements())}})
 			}
 		}()
